@@ -21,7 +21,12 @@ pub fn exec(op: &str, inputs: &[String]) -> Option<Reply> {
 fn generate(prop: &str, sink: &mut sink::Sink, rng: &mut rng::Rng, n: u64) -> bool {
     match prop {
         "C18" => c18::generate(sink, rng, n),
-        "LANG" => lang::generate(sink, rng, n, true),
+        "LANG" => lang::generate(sink, rng, n, true, None),
+        "C06" => lang::generate(sink, rng, n, false, Some("o.c06")),
+        "C07" => lang::generate(sink, rng, n, false, Some("o.c07")),
+        "C08" => lang::generate(sink, rng, n, false, Some("o.c08")),
+        "C09" => lang::generate(sink, rng, n, false, Some("o.c09")),
+        "C13" => lang::generate(sink, rng, n, false, Some("o.c13")),
         _ => return false,
     }
     true
